@@ -41,7 +41,7 @@ from vsim.backend import SimAsyncIOBackend, sim_sockets
 from vsim.harness import CallFaults, draw_rate, swarm_selector
 from vsim.loop import run_async
 from vsim.runner import Harness
-from vsim.sock import Delivery, HalfPipe, SimNet, SimSocket, patched_clock
+from vsim.sock import Delivery, HalfPipe, SimNet, SimSocket
 from vsim.world import Deadlock, HarnessError, StepCap, Violation, World
 
 PROPERTY = "C12"
@@ -201,8 +201,10 @@ class _Workload:
     def __init__(self, world: World, name: str):
         self.world = world
         self.name = name
+        # a third of the runs are fault-free baselines (profile 0): roomy link, greedy peer, no injected socket behaviour
+        self.baseline = world.choose("profile", 3) == 0
         self.nsenders = 2 + world.choose("nsenders", 4)
-        self.capacity = (1 << 20, 7, 16, 64, 256)[world.choose("capacity", 5)]
+        self.capacity = 1 << 20 if self.baseline else (1 << 20, 7, 16, 64, 256)[world.choose("capacity", 5)]
         sizes = (0, 1, 5, 23, 90, 300)
         self.plan: list[list[tuple[int, tuple[int, int, int]]]] = []  # per sender: [(stagger ticks, packet)]
         for s in range(self.nsenders):
@@ -213,17 +215,21 @@ class _Workload:
             self.plan.append(lst)
         self.piece = (4096, 2, 16, 64)[world.choose("piece", 4)]
         self.protocol: Any = StreamProtocol(_PacketSerializer(self.piece))
-        self.profile = world.choose("rd.profile", 4)
-        self.delivery = Delivery.draw(world, "link")
-        self.short_den = draw_rate(world, "sw.short", (0, 0, 6, 2))
-        self.eagain_den = draw_rate(world, "sw.eagain", (0, 0, 8, 3))
-        self.eintr_den = draw_rate(world, "sw.eintr", (0, 0, 0, 6))
+        if self.baseline:
+            self.profile, self.delivery, self.short_den, self.eagain_den, self.eintr_den = 0, Delivery(), 0, 0, 0
+        else:
+            self.profile = world.choose("rd.profile", 4)
+            self.delivery = Delivery.draw(world, "link")
+            self.short_den = draw_rate(world, "sw.short", (0, 0, 6, 2))
+            self.eagain_den = draw_rate(world, "sw.eagain", (0, 0, 8, 3))
+            self.eintr_den = draw_rate(world, "sw.eintr", (0, 0, 0, 6))
         self.calls: list[tuple[int, int, str]] = []  # (sender, seq, outcome)
         self.total_bytes = sum(8 + p[2] + 1 for lst in self.plan for _, p in lst)
         if self.capacity < self.total_bytes:
             world.fault("capacity_small")
         world.notes.update(
             harness=name,
+            baseline=self.baseline,
             capacity=self.capacity,
             packets=[[(st, p[2]) for st, p in lst] for lst in self.plan],
             piece=self.piece,
@@ -287,8 +293,7 @@ def _check(wl: _Workload, reader: Any) -> None:
 def _finish(world: World, wl: _Workload, box: dict[str, Any], amain: Callable[[], Any]) -> None:
     """box: {"reader": _BurstReader (may be created during the run), "closed": True once the connection was closed}"""
     try:
-        with patched_clock(world):
-            run_async(world, amain)
+        run_async(world, amain)
     except Deadlock as exc:
         reader = box.get("reader")
         raise Violation(
@@ -321,7 +326,8 @@ def _h_client(world: World) -> None:
 
     async def amain() -> None:
         loop = asyncio.get_running_loop()
-        swarm_selector(world, loop.sim_selector)  # type: ignore[attr-defined]
+        if not wl.baseline:
+            swarm_selector(world, loop.sim_selector)  # type: ignore[attr-defined]
         client: Any = AsyncTCPNetworkClient(lib, wl.protocol, backend=backend)
         await client.wait_connected()
         try:
@@ -346,7 +352,8 @@ def _h_fairlock(world: World) -> None:
 
     async def amain() -> None:
         loop = asyncio.get_running_loop()
-        swarm_selector(world, loop.sim_selector)  # type: ignore[attr-defined]
+        if not wl.baseline:
+            swarm_selector(world, loop.sim_selector)  # type: ignore[attr-defined]
         endpoint: Any = AsyncStreamEndpoint(await backend.wrap_stream_socket(lib), wl.protocol, max_recv_size=4096)
         lock = FairLock(backend)
 
@@ -394,7 +401,8 @@ def _h_server(world: World) -> None:
     box: dict[str, Any] = {}
     async def amain() -> None:
         loop = asyncio.get_running_loop()
-        swarm_selector(world, loop.sim_selector)  # type: ignore[attr-defined]
+        if not wl.baseline:
+            swarm_selector(world, loop.sim_selector)  # type: ignore[attr-defined]
         handler.done = asyncio.Event()
         server: Any = AsyncTCPNetworkServer("127.0.0.1", 5000, wl.protocol, handler, backend=backend, log_client_connection=False)
         async with server:
